@@ -401,6 +401,11 @@ class World:
     def range_iter(self, it, fn, node, value, frame):
         return NOT_HANDLED
 
+    def narrow_cast(self, it, type_str, value, where):
+        """conversion of an abstract (unbounded) integer to a type narrower than 64 bits"""
+        raise AnalysisBroken("interp: narrowing conversion of the abstract value %r to %s at %s"
+                             % (value, type_str, where))
+
     def default_value(self, it, type_str):
         return NOT_HANDLED
 
@@ -410,6 +415,17 @@ class World:
     def on_assign(self, it, fn, node, ref, value):
         pass
 
+
+NARROW_INT = {}
+for _names, _lo, _hi in ((("short", "std::int16_t", "int16_t", "offset_type"), -(1 << 15), (1 << 15) - 1),
+                         (("unsigned short", "std::uint16_t", "uint16_t"), 0, (1 << 16) - 1),
+                         (("signed char", "std::int8_t", "int8_t"), -128, 127),
+                         (("unsigned char", "std::uint8_t", "uint8_t"), 0, 255),
+                         (("int", "std::int32_t", "int32_t"), -(1 << 31), (1 << 31) - 1),
+                         (("unsigned int", "std::uint32_t", "uint32_t", "unsigned"), 0, (1 << 32) - 1)):
+    for _n in _names:
+        NARROW_INT[_n] = (_lo, _hi)
+NARROW_INT.pop("offset_type")
 
 CMP_OPS = ("<", "<=", ">", ">=", "==", "!=")
 ARITH = ("+", "-", "*", "/", "%")
@@ -647,6 +663,22 @@ class Interp:
                 return x % (1 << bits)
             if isinstance(x, int) and t in ("long", "int", "long long") and x >= (1 << 63):
                 return x - (1 << 64)
+            if isinstance(x, int) and not isinstance(x, bool):
+                tb = t.replace("const ", "").strip()
+                rng = NARROW_INT.get(tb)
+                if rng is not None and not (rng[0] <= x <= rng[1]):
+                    span = rng[1] - rng[0] + 1
+                    return (x - rng[0]) % span + rng[0]
+                return x
+            if not isinstance(x, (int, float)):
+                tb = t.replace("const ", "").strip()
+                if tb in NARROW_INT:
+                    src = strip(e["e"]).get("t")
+                    sb = fr.fn.type(src).replace("const ", "").strip() if src is not None else ""
+                    srng = NARROW_INT.get(sb, (-(1 << 63), (1 << 64) - 1))
+                    drng = NARROW_INT[tb]
+                    if srng[0] < drng[0] or srng[1] > drng[1]:
+                        return self.world.narrow_cast(self, tb, x, fr.fn.loc(e))
             return x
         return v
 
@@ -967,6 +999,10 @@ class Interp:
                 return d
             if isinstance(first, dict):
                 return copy.deepcopy(first)
+        if base.startswith("std::function<") and len(args) == 1:
+            v = self.rv(self.eval(args[0], fr))     # function{nullptr} / function{closure}
+            if v is None or isinstance(v, (Closure, FuncRef)):
+                return v
         if not args:
             return self.default_for_type(fr.fn, base)
         if base.startswith("std::basic_string<"):
@@ -1215,6 +1251,11 @@ class Interp:
             if name == "pop_back":
                 c.pop()
                 return None
+            if name == "assign" and len(args_n) == 2:
+                n_, v_ = V(0), V(1)
+                if isinstance(n_, int) and not isinstance(n_, bool):
+                    c[:] = [copy.deepcopy(v_) for _ in range(n_)]
+                    return None
             if name == "fill":
                 v = V(0)
                 for i in range(len(c)):
